@@ -443,6 +443,11 @@ func (gsr *GoStructRegistryType) GetOrCreatePointerType(pointedToType *Registere
 }
 
 func (gsr *GoStructRegistryType) GetOrCreateSliceType(rt *RegisteredType) *RegisteredType {
+	if rt.TypeCache == nil {
+		// an element type without a Go type (e.g. a plain hash):
+		// the generic slice type, rather than reflect.SliceOf(nil)
+		return gsr.Lookup("[]")
+	}
 	//sliceName := "sliceOf" + rt.RegisteredName
 	sliceName := "[]" + rt.RegisteredName
 	sliceRt := gsr.Lookup(sliceName)
